@@ -49,7 +49,7 @@ func selftestGen(o hreg.Opts, w *bufio.Writer) error {
 	line("chain fast@1,2,3,4 32 %d 40 poor under mode=eth1 want:finalized=0,justified=0", seed())
 	line("chain fast@0,1,2,3 48 %d 64 mixed default followcode want:plainrej=0,epcrepairs=0", seed())
 	// random configurations
-	n := o.Pick(6, 60)
+	n := o.Pick(6, 30)
 	bal := []string{"mixed", "uniform", "rich", "poor"}
 	for i := 0; i < n; i++ {
 		cs := rng.Int63n(1 << 30)
